@@ -85,6 +85,21 @@ func c15configs() []c15cfg {
 // observe runs one interleaving: order[i] selects whose next event runs (0 = A, 1 = B);
 // a session absent from the run (solo) simply has no events.
 func c15run(t *testing.T, cfg gw.Config, a, b []string, order []int, e2prefix []int, e2 bool) (logA, logB string, res explore.ExecResult) {
+	// every run gets its own copy of the configuration objects the two sessions share: a session that
+	// writes into them must be visible as a difference between this run and the solo runs, not poison all of them
+	pre := topics.PredefinedTopics{}
+	for cl, m := range cfg.Predefined {
+		pre[cl] = map[uint16]string{}
+		for id, n := range m {
+			pre[cl][id] = n
+		}
+	}
+	cfg.Predefined = pre
+	if cfg.User != nil {
+		u := *cfg.User
+		cfg.User = &u
+	}
+	cfg.Password = append([]byte(nil), cfg.Password...)
 	res, _ = explore.Bubble(t, e2prefix, func(s *vsched.Sched) (string, []explore.Violation) {
 		s.NoChoice = !e2
 		ga, gb := gw.NewPair(s, cfg)
